@@ -223,7 +223,13 @@ class G:
                 ctx["vars"][p] = "I"
             if kind == "pure":
                 ss = s.stmts(ctx, 2, r.randint(1, 3))
-                ss.append(s.eI({"vars": {**gl, **{p: "I" for p in ps_}}, "infn": True, "isgen": False, "calls": True}, 2))
+                fin = s.eI({"vars": {**gl, **{p: "I" for p in ps_}}, "infn": True, "isgen": False, "calls": True}, 2)
+                if r.random() < 0.5:
+                    # a local that is assigned only on a path that is not taken reads nil, whatever earlier calls left on the stack
+                    u = s.fresh("u")
+                    ss.insert(r.randint(0, len(ss)), iff(Bo(False), assign(u, I(7))))
+                    fin = bin_("+", fin, un("#", call("toa", N(u))))
+                ss.append(fin)
                 items.append(assign(name, fn(ps_, block(ss))))
                 s.fns[name] = ("pure", np_)
             elif kind == "gen":
